@@ -32,3 +32,26 @@ def scaled_constants(**vals):
         open(out, "w").write(src)
         return {path: out}
     return gen
+
+
+def gen_portable(repo, work):
+    """compareRanks of result_others.go (excluded by build tag here) as a renamed, tag-stripped copy."""
+    import os, re
+    src = open(os.path.join(repo, "src/result_others.go")).read()
+    src = re.sub(r"//go:build[^\n]*\n", "", src)
+    if src.count("func compareRanks(") != 1:
+        raise RuntimeError("compareRanks not found in result_others.go")
+    src = src.replace("func compareRanks(", "func zzCompareRanksPortable(")
+    out = os.path.join(work, "zz_portable.go")
+    open(out, "w").write(src)
+    return {os.path.join(repo, "src/zz_verif_portable.go"): out}
+
+
+def src_suite(name, jobs, **consts):
+    """A suite over package fzf (src): harness files of algo + src, the portable comparator copy, optional scaled constants."""
+    def gen(repo, work):
+        ov = gen_portable(repo, work)
+        if consts:
+            ov.update(scaled_constants(**consts)(repo, work))
+        return ov
+    return dict(SRC, name=name, jobs=jobs, generate=gen)
